@@ -319,7 +319,7 @@ def audit_props(pid: str):
     for m in re.finditer(r"Axioms:\n((?:.+\n?)+?)(?:\n\n|\Z|(?=Closed under))", out):
         for line in m.group(1).splitlines():
             mm = re.match(r"^([A-Za-z0-9_.']+)\s*:", line)
-            if mm: axioms.append(mm.group(1))
+            if mm and mm.group(1) != "Axioms": axioms.append(mm.group(1))   # header of the next block (consecutive non-closed theorems)
     bad = [a for a in axioms if not any(a.startswith(p) for p in ALLOWED_AXIOMS)]
     forbidden = re.findall(r"\b(Admitted|admit|Axiom|Parameter|Conjecture|Unset Guard|bypass_check)\b", text)
     ok = (rc == 0) and not bad and not forbidden and (closed + (1 if axioms else 0) >= 1) and n_print >= 1
